@@ -25,7 +25,7 @@ CFG = {
                   "proved to decide Sorted /\\ Permutation and stability; they still judge every observed run of the real "
                   "code. The transcriptions are tied to the code on every run: ~5 000 calls, the sorts replayed through the "
                   "Coq model with the sequence of less(x, y) calls compared (count and rolling hash), 14 input generators plus "
-                  "McIlroy's anti-quicksort adversary run against the real SortFunc (the evidence lists the model branches hit, "
+                  "adversary-built killer inputs (four freezing rules, sizes 50..2000, generated against the real SortFunc each run and replayed as values through Sort on five element types, SortFunc, SortStableFunc and the BSlice methods; the evidence counts the cases reaching each model branch and the run fails its coverage case if the heapsort fallback, breakPatterns, partitionEqual, partialInsertionSort true/false or reverseRange is not reached, "
                   "incl. the heapsort fallback, breakPatterns, partialInsertionSort, partitionEqual, ninther, symMerge rotation).",
     "level_note": "Sortedness of pdqsort and of the stable sort is a theorem of the transcribed models for all inputs "
                   "(C10_sort_sorted, C10_stable_sorted); C10_sort_sorted_partial (n <= 12) is kept but subsumed. Premises: less is a "
@@ -70,5 +70,6 @@ CFG = {
         "slice length < 2^63 for the stable sort (the model's fuel 64)",
         "slice length < 2^63 for BinarySearch's midpoint",
     ],
-    "widen_runs": 1,
+    # when only the tie / an obligation breaks: one more quick-sized run with another seed (keeps a quick check under ~150 s)
+    "widen_runs": 1, "widen_tier": "quick", "widen_timeout": 120,
 }
